@@ -501,7 +501,9 @@ class NoFragmentCyclesChecker(ValidationVisitor):
                 # for one fragment. This line and the fact that we keep one
                 # path per fragment make it so that we only report one.
                 if inner in acc:
-                    break
+                    # (only skip this one: the spreads written after it still
+                    # have to be followed, a cycle may go through them)
+                    continue
                 acc[inner] = path
                 _search(inner, acc, path + [inner])
 
